@@ -373,7 +373,7 @@ func (server *Server) responseMessage(conn io.Writer, msg *Message) error {
 
 // handleMessage handles a client message.
 func (server *Server) handleArrayMessage(conn *Conn, arrayMsg *proto.Array) (*Message, error) {
-	firstMsg, err := arrayMsg.Next()
+	firstMsg, err := arrayMsg.NextMessage()
 	if err != nil {
 		return nil, err
 	}
